@@ -961,6 +961,41 @@ def gen_identity(rng):
     return wrap_context(rng, e)
 
 
+def gen_str_concat(rng):
+    """list / tuple / set displays with implicitly concatenated string literals among their elements, nested displays; near
+    misses: a concatenation outside a display (call argument, comparison operand), displays without any"""
+    def jx():
+        return ("EJuxt", rng.choice([0, 0, 1]), S(rng.choice(["x", "y", "ab", "q z"])))
+
+    def elem(d):
+        r = rng.random()
+        if r < 0.35:
+            return jx()
+        if r < 0.6:
+            return S(rng.choice(STRS))
+        if r < 0.75:
+            return N(rng.randrange(8))
+        if r < 0.9 and d < 2:
+            return display(d + 1)
+        return I(rng.choice(INTS))
+
+    def display(d=0):
+        kind = rng.choice(["EList", "EList", "ETuple", "ETuple", "ESet"])
+        n = rng.randint(1, 3) if kind == "ESet" or rng.random() < 0.9 else 0
+        return (kind, [elem(d) for _ in range(n)])
+    e = display()
+    r = rng.random()
+    if r < 0.12:
+        e = ("ECall", "BLen", [e])
+    elif r < 0.2:
+        e = ("ECall", "BLen", [jx()])
+    elif r < 0.3:
+        e = ("ECmp", True, N(rng.randrange(8)), [("In", e)])
+    elif r < 0.36:
+        e = ("ECmp", True, jx(), [("In", e)])
+    return wrap_context(rng, e)
+
+
 def randomise_flags(rng, e):
     """clear parenthesisation flags at random (the result may be ill-formed or parse differently: that is the point)"""
     k = e[0]
